@@ -28,13 +28,15 @@ QUOTES = '"\''
 
 
 # ---------------------------------------------------------------- independent reference model
+OPAQUE_QUOTES = [False]  # the split laws read a quoted string as opaque (any bracket, the other quote kind); the other laws keep the narrow reading
+
+
 def scan(text: str):
 	"""-> list of (char, depth_before, in_quote) or None when not well formed.
 
 	well formed: brackets balanced and properly nested outside quotes; quotes closed; no backslash;
-	a quoted string holds no quote character and its own brackets are balanced among themselves
-	(the statement's "simple quoted strings possibly containing delimiters and brackets" — an unbalanced bracket
-	inside quotes is left outside the claim, see DESIGN.md C18).
+	a quoted string holds no quote character and its own brackets are balanced among themselves; with OPAQUE_QUOTES
+	(the split laws, since c9b4f9b) a quoted string may hold any bracket and the other quote kind.
 	"""
 	out = []
 	stack: list[str] = []
@@ -46,9 +48,12 @@ def scan(text: str):
 		if quote:
 			out.append((ch, len(stack), True))
 			if ch == quote:
-				if qstack:
+				if qstack and not OPAQUE_QUOTES[0]:
 					return None
 				quote = ''
+				qstack = []
+			elif OPAQUE_QUOTES[0]:
+				pass
 			elif ch in QUOTES:
 				return None
 			elif ch in OPEN:
@@ -117,9 +122,25 @@ def split_laws(text: str) -> bool:
 	pre: len(text) <= MAXLEN
 	pre: in_alpha(text)
 	pre: first_ok(text)
-	pre: wellformed(text)
+	pre: wellformed_opaque(text)
 	post: _
 	"""
+	OPAQUE_QUOTES[0] = True
+	try:
+		return _split_laws(text)
+	finally:
+		OPAQUE_QUOTES[0] = False
+
+
+def wellformed_opaque(text: str) -> bool:
+	OPAQUE_QUOTES[0] = True
+	try:
+		return scan(text) is not None
+	finally:
+		OPAQUE_QUOTES[0] = False
+
+
+def _split_laws(text: str) -> bool:
 	got = BlockParser.break_separator(text, DELIM)
 	want = ref_split(text, DELIM)
 	if len(want) > 1:
@@ -135,7 +156,11 @@ def split_laws(text: str) -> bool:
 
 
 def explain_split(text: str) -> str:
-	return f'break_separator({text!r}, {DELIM!r}) = {BlockParser.break_separator(text, DELIM)!r}, top-level split = {ref_split(text, DELIM)!r}'
+	OPAQUE_QUOTES[0] = True
+	try:
+		return f'break_separator({text!r}, {DELIM!r}) = {BlockParser.break_separator(text, DELIM)!r}, top-level split = {ref_split(text, DELIM)!r}'
+	finally:
+		OPAQUE_QUOTES[0] = False
 
 
 # ---------------------------------------------------------------- L4 break_last_block
